@@ -3,6 +3,7 @@ import ast
 
 from ..model import (AnalysisError, FUNC_TYPES, U, call_attr, call_name, dotted, enclosing, enclosing_function, guard_texts, guards_ex,
                      short, walk_body, walk_local, ancestors, parent, const_str, kwarg, literal)
+from .. import feat
 from ..util import params, find_calls, assigns_to, trace, stmt_of, has_exit, syn_dominates
 from . import c01, c03
 
@@ -52,7 +53,9 @@ def r2_construction(cx):
     cx.require(ok, vk[0] if vk else init, "validate_kwargs(kwargs) runs first, unconditionally", construct=short(vk[0]) if vk else "(no validate_kwargs call)")
     ok = len(vkey) == 1 and set(guard_texts(vkey[0])) == set([("self.key_name", True)]) and U(vkey[0].args[0]) == params(init)[1]
     cx.require(ok, vkey[0] if vkey else init, "validate_key(key) runs iff the response class has a key_name", construct=short(vkey[0]) if vkey else "(no validate_key call)")
-    ok = len(adj) == 1 and len(sup) == 1 and isinstance(stmt_of(adj[0]), ast.Assign) and U(stmt_of(adj[0]).targets[0]) == U(sup[0].args[0]) and syn_dominates(stmt_of(adj[0]), sup[0])
+    ok = len(adj) == 1 and len(sup) == 1 and ((isinstance(stmt_of(adj[0]), ast.Assign) and U(stmt_of(adj[0]).targets[0]) == U(sup[0].args[0]) and syn_dominates(stmt_of(adj[0]), sup[0])
+                                              and not [a for a in assigns_to(init, U(sup[0].args[0])) if a is not stmt_of(adj[0]) and a.lineno > adj[0].lineno])
+                                             or (sup[0].args and sup[0].args[0] is adj[0]))
     cx.require(ok, sup[0] if sup else init, "the dict is initialised from the *result* of adjust_for_length", construct="%s ; %s" % (short(stmt_of(adj[0])) if adj else "?", short(sup[0]) if sup else "?"))
     rdef = [a for a in walk_body(init.body) if isinstance(a, ast.Assign) and U(a.targets[0]) == "r" and isinstance(a.value, ast.Dict)]
     ok = bool(rdef) and dict((const_str(k), U(v)) for k, v in zip(rdef[0].value.keys, rdef[0].value.values)) == {"type": "self.response_type"}
@@ -183,16 +186,33 @@ def r4_dispatch(cx, mods):
         ok = len(aps) == 1 and U(aps[0].func.value) == "self.results[%s]" % tv and enclosing(aps[0], (ast.For, ast.While)) is None and not guard_texts(aps[0], stop=chain[-1])
         cx.require(ok, aps[0] if aps else chain[-1], "%s appends exactly one entry to results[<the response's own type>]" % q, construct=short(aps[0], 100) if aps else "(none)")
         dicts = [d for d in walk_body(generic) if isinstance(d, ast.Dict) and any(const_str(k) == "component" for k in d.keys if k is not None)]
+        host = fn
+        if not dicts:
+            # the entry may be built by a method shared between the evaluators: follow self.<m>(plugin, r) through the class hierarchy
+            cls = m.get(q.rsplit(".", 1)[0]) if "." in q else None
+            for c in find_calls(generic):
+                if cls is not None and isinstance(c.func, ast.Attribute) and U(c.func.value) == "self" and [U(a) for a in c.args] == [plugin, r] and not c.keywords:
+                    k, meth = cx.repo.lookup_method(cls, c.func.attr)
+                    if meth is None:
+                        continue
+                    rets = [x for x in walk_body(meth.body) if isinstance(x, ast.Return)]
+                    if len(rets) == 1 and isinstance(trace(rets[0].value, meth), ast.Dict):
+                        dd = trace(rets[0].value, meth)
+                        if any(const_str(kk) == "component" for kk in dd.keys if kk is not None):
+                            dicts = [dd]
+                            host = meth
+                            plugin, r = params(meth)[1], params(meth)[2]
+                            break
         if not dicts:
             cx.bad(chain[-1], "%s builds the result entry" % q, construct="(no result dict)")
             continue
         d = dicts[0]
         keys = set(const_str(k) for k in d.keys if k is not None and const_str(k))
-        vals = dict((const_str(k), trace(v, fn)) for k, v in zip(d.keys, d.values) if k is not None and const_str(k))
+        vals = dict((const_str(k), trace(v, host)) for k, v in zip(d.keys, d.values) if k is not None and const_str(k))
         idk = [U(k) for k in d.keys if k is not None and const_str(k) is None]
         cx.require(RESULT_KEYS <= keys and len(idk) == 1, d, "%s: the entry has <type>_id, component, type, key, details, tags, links" % q, construct="keys: %s + %s" % (sorted(keys), idk))
         raw = dict((const_str(k), v) for k, v in zip(d.keys, d.values) if k is not None and const_str(k))
-        ok = U(raw.get("type")) == tv and U(vals.get("details")) == r and U(vals.get("component")) == "dr.get_name(%s)" % plugin and U(vals.get("key")) == "%s.get_key()" % r \
+        ok = (U(raw.get("type")) == tv and host is fn or U(vals.get("type")) == "%s['type']" % r) and U(vals.get("details")) == r and U(vals.get("component")) == "dr.get_name(%s)" % plugin and U(vals.get("key")) == "%s.get_key()" % r \
             and U(vals.get("tags")) == "list(dr.get_tags(%s))" % plugin and U(vals.get("links")).startswith("dr.get_delegate(%s).links" % plugin)
         cx.require(ok, d, "%s: type is the response's own type, details the response, key its key, component/tags/links those of the rule" % q,
                    construct=", ".join("%s=%s" % (k, short(v, 40)) for k, v in sorted(vals.items())))
@@ -246,23 +266,47 @@ def r6_filter_table(cx):
         return
     fn = fm.func("get_response_of_types", "C12.R6")
     heading = {"rule": "reports", "fingerprint": "fingerprints", "info": "info", "pass": "pass", "none": "none"}
-    pops = {}
+    pops = {}      # option -> (receiver text, heading, safe when absent, description)
     for x in find_calls(fn.body, attr="pop"):
         g = set(guard_texts(x))
+        recv = U(x.func.value)
+        safe_default = len(x.args) == 2
         for t, p in g:
-            if t.endswith(" in show_rules") and not p:
-                pops[t.split(" in ")[0].strip("'")] = (U(x), g)
+            if not (t.endswith(" in show_rules") and not p):
+                continue
+            sel = t[:-len(" in show_rules")]
+            if sel.startswith("'"):
+                h = const_str(x.args[0]) if x.args else None
+                safe = safe_default or ("'%s' in %s" % (h, recv), True) in g or ("'%s' in %s.get('system', {})" % (h, recv.replace("['system']", "")), True) in g
+                pops[sel.strip("'")] = (recv, h, safe, "%s guarded by %s" % (U(x), sorted(g)))
+            else:
+                # table driven: for <sel>, <heading> in TABLE: if <sel> not in show_rules: response.pop(<heading>, None)
+                lp = enclosing(x, ast.For)
+                if lp is None or not isinstance(lp.target, ast.Tuple) or len(lp.target.elts) != 2 or U(lp.target.elts[0]) != sel or not x.args or U(x.args[0]) != U(lp.target.elts[1]):
+                    continue
+                try:
+                    tbl = literal(cx.repo, fm.top.get(U(lp.iter)) if isinstance(lp.iter, ast.Name) and fm.top.get(U(lp.iter)) is not None else lp.iter)
+                except Exception:
+                    tbl = None
+                if isinstance(tbl, dict):
+                    tbl = list(tbl.items())
+                if not isinstance(tbl, (list, tuple)) or feat.loop_exits(lp):
+                    continue
+                extra = set((a, b) for a, b in guard_texts(x, stop=lp)) - set([(t, p)])
+                for o_, h_ in tbl:
+                    safe = safe_default or ("%s in %s" % (U(lp.target.elts[1]), recv), True) in extra
+                    pops[o_] = (recv, h_, safe, "%s for (%r, %r) in %s" % (U(x), o_, h_, U(lp.iter)))
     opts = [c.replace("fail", "rule") for c in choices]
     for o in opts:
         if o not in pops:
             cx.bad(fn, "option '%s' of --show-rules filters its heading when not selected" % o, construct="(no pop guarded by '%s' not in show_rules)" % o)
             continue
-        txt, g = pops[o]
+        recv, h, safe, desc = pops[o]
         if o == "metadata":
-            ok = txt == "response['system'].pop('metadata')"
+            ok = recv == "response['system']" and h == "metadata"
         else:
-            ok = txt == "response.pop('%s')" % heading.get(o, o) and ("'%s' in response" % heading.get(o, o), True) in g
-        cx.require(ok, fn, "'%s' not selected -> heading '%s' removed (and only that heading)" % (o, heading.get(o, o)), construct="%s guarded by %s" % (txt, sorted(g)))
+            ok = recv == "response" and h == heading.get(o, o) and safe
+        cx.require(ok, fn, "'%s' not selected -> heading '%s' removed (and only that heading)" % (o, heading.get(o, o)), construct=desc)
     for o in pops:
         cx.require(o in opts, fn, "every filtered type is a selectable choice", construct="pop for '%s'" % o)
     # 'fail' is translated to 'rule'
